@@ -10,12 +10,17 @@ Proved:  quantile_in_min_max, quantile_monotone_in_q, percentiles_ordered, all_e
 all_equal_percentiles, all_equal_exact_any_arithmetic (any arithmetic with two stated laws),
 clamp_float64, interp_float64, all_equal_exact_float64 (the two laws and the clause for SoftF64 itself),
 ladder_sorted (on the regenerated table), hdr_rows_nondecreasing, hdr_report_nondecreasing.
+Compression pass (Model/TDigestMerge.lean; limit function and sort as parameters): add_preserves_invariant,
+process_preserves_invariant, process_preserves_valid (so `Valid` is a theorem, not an assumption), and
+end to end over latency sequences: e2e_quantile_in_sample_range, e2e_percentiles_in_range,
+e2e_percentiles_ordered (needs: ≤ maxProcessed centroids after the first process), e2e_all_equal.
 NOT proved (and false of the unchanged code, see the harness's `tdigest_rank_error` finding): the
 rank-error clause "each reported percentile lies between two observed latencies whose ranks are within
 1 + 1% of n of q·n" — a numerical property of the third-party compression pass (sin/asin), which is a
 parameter here.
 -/
 import Vegeta.Model.Quantile
+import Vegeta.Model.TDigestMerge
 import Vegeta.Proofs.QuantileF64
 import Vegeta.Extracted.Facts
 import Mathlib.Tactic.Linarith
@@ -25,7 +30,7 @@ import Mathlib.Tactic.FieldSimp
 import Mathlib.Algebra.Order.Field.Basic
 import Mathlib.Data.Rat.Floor
 namespace Vegeta.Props.C11
-open Vegeta.Go Vegeta.Model.Quantile
+open Vegeta.Go Vegeta.Model.Quantile Vegeta.Model.TDigestMerge
 
 set_option linter.unusedSectionVars false
 set_option linter.unusedSimpArgs false
@@ -865,5 +870,591 @@ example :
     let d : Digest F64 := ⟨[⟨v, F64.ofNat 2⟩, ⟨v, F64.ofNat 3⟩, ⟨v, F64.ofNat 2⟩], F64.ofNat 7, v, v⟩
     v.isNaN = false ∧ v.isInf = false ∧ v.isZero = false ∧ v.bits < 2 ^ 64 ∧
     quantile d (lit 50 100) = .ok v ∧ quantile d (lit 99 100) = .ok v ∧ quantile d (lit 1 100) = .ok v := by decide +kernel
+
+
+/-! ## The compression pass (Model/TDigestMerge.lean): `Valid` derived, end-to-end theorems
+
+Everything below holds for EVERY limit function `lim : Lim K` (the sin/asin scale function of the
+library is one instance) and every `sortBy` that returns its input permuted and sorted by mean
+(`SortSpec`; Go's unstable pdqsort is one instance). -/
+
+def sumW (cs : List (Centroid K)) : K := (cs.map (·.weight)).sum
+
+theorem aux_cadd (c r : Centroid K) (hc : 0 < c.weight) (hr : 0 < r.weight) :
+    centroidAdd c r = ⟨c.mean + r.weight * (r.mean - c.mean) / (c.weight + r.weight), c.weight + r.weight⟩ := by
+  unfold centroidAdd ne0
+  have h1 : ¬ (r.weight < ((0:Nat):K)) := by simp; exact le_of_lt hr
+  have h2 : ¬ (c.weight ≤ ((0:Nat):K)) := by simp; exact hc
+  simp only [aux_ops_lt, aux_ops_le, aux_ops_ofNat, h1, h2, decide_false, Bool.false_and, Bool.not_false,
+    Bool.false_eq_true, ↓reduceIte, aux_ops_add, aux_ops_mul, aux_ops_sub, aux_ops_div]
+
+/-- the merged mean is the weighted mean: it stays inside every interval that contains both means -/
+theorem aux_cadd_lo (c r : Centroid K) (hc : 0 < c.weight) (hr : 0 < r.weight) (lo : K) (h1 : lo ≤ c.mean) (h2 : lo ≤ r.mean) :
+    lo ≤ (centroidAdd c r).mean := by
+  rw [aux_cadd c r hc hr]
+  simp only
+  have hW : 0 < c.weight + r.weight := by linarith
+  have : c.mean + r.weight * (r.mean - c.mean) / (c.weight + r.weight) = (c.weight * c.mean + r.weight * r.mean) / (c.weight + r.weight) := by
+    field_simp; ring
+  rw [this, le_div_iff₀ hW]
+  nlinarith [mul_nonneg (le_of_lt hc) (sub_nonneg.2 h1), mul_nonneg (le_of_lt hr) (sub_nonneg.2 h2)]
+
+theorem aux_cadd_hi (c r : Centroid K) (hc : 0 < c.weight) (hr : 0 < r.weight) (hi : K) (h1 : c.mean ≤ hi) (h2 : r.mean ≤ hi) :
+    (centroidAdd c r).mean ≤ hi := by
+  rw [aux_cadd c r hc hr]
+  simp only
+  have hW : 0 < c.weight + r.weight := by linarith
+  have : c.mean + r.weight * (r.mean - c.mean) / (c.weight + r.weight) = (c.weight * c.mean + r.weight * r.mean) / (c.weight + r.weight) := by
+    field_simp; ring
+  rw [this, div_le_iff₀ hW]
+  nlinarith [mul_nonneg (le_of_lt hc) (sub_nonneg.2 h1), mul_nonneg (le_of_lt hr) (sub_nonneg.2 h2)]
+
+theorem aux_cadd_weight (c r : Centroid K) (hc : 0 < c.weight) (hr : 0 < r.weight) :
+    (centroidAdd c r).weight = c.weight + r.weight := by rw [aux_cadd c r hc hr]
+
+theorem aux_sumW_cons (c : Centroid K) (cs : List (Centroid K)) : sumW (c :: cs) = c.weight + sumW cs := by
+  simp [sumW]
+theorem aux_sumW_append (a b : List (Centroid K)) : sumW (a ++ b) = sumW a + sumW b := by
+  simp [sumW]
+theorem aux_sumW_reverse (a : List (Centroid K)) : sumW a.reverse = sumW a := by
+  simp [sumW, List.sum_reverse]
+theorem aux_sumW_perm {a b : List (Centroid K)} (h : a.Perm b) : sumW a = sumW b := by
+  unfold sumW; exact (h.map _).sum_eq
+
+/-- What one merge pass guarantees, for EVERY limit function. -/
+structure MergeOut (acc : List (Centroid K)) (cur : Centroid K) (rest out : List (Centroid K)) : Prop where
+  sorted : out.Pairwise (fun a b => a.mean ≤ b.mean)
+  wpos : ∀ c ∈ out, 0 < c.weight
+  sum : sumW out = sumW acc + cur.weight + sumW rest
+  ne : out ≠ []
+  lo : ∀ lo : K, (∀ c ∈ acc, lo ≤ c.mean) → lo ≤ cur.mean → (∀ c ∈ rest, lo ≤ c.mean) → ∀ c ∈ out, lo ≤ c.mean
+  hi : ∀ hi : K, (∀ c ∈ acc, c.mean ≤ hi) → cur.mean ≤ hi → (∀ c ∈ rest, c.mean ≤ hi) → ∀ c ∈ out, c.mean ≤ hi
+
+theorem aux_merge (next : K → K → K) (W : K) : ∀ (rest acc : List (Centroid K)) (cur : Centroid K) (soFar limit : K),
+    0 < cur.weight → (∀ c ∈ acc, 0 < c.weight) → (∀ c ∈ rest, 0 < c.weight) →
+    (cur :: acc).Pairwise (fun a b => b.mean ≤ a.mean) → rest.Pairwise (fun a b => a.mean ≤ b.mean) →
+    (∀ r ∈ rest, cur.mean ≤ r.mean) →
+    MergeOut acc cur rest (mergeLoop next W acc cur soFar limit rest) := by
+  intro rest
+  induction rest with
+  | nil =>
+    intro acc cur soFar limit hcw hacc _ hdesc _ _
+    simp only [mergeLoop]
+    refine ⟨?_, ?_, ?_, by simp, ?_, ?_⟩
+    · rw [List.pairwise_reverse]; exact hdesc
+    · intro c hc
+      rw [List.mem_reverse, List.mem_cons] at hc
+      rcases hc with h | h
+      · rw [h]; exact hcw
+      · exact hacc c h
+    · rw [aux_sumW_reverse, aux_sumW_cons]; simp [sumW]; ring
+    · intro lo h1 h2 _ c hc
+      rw [List.mem_reverse, List.mem_cons] at hc
+      rcases hc with h | h
+      · rw [h]; exact h2
+      · exact h1 c h
+    · intro hi h1 h2 _ c hc
+      rw [List.mem_reverse, List.mem_cons] at hc
+      rcases hc with h | h
+      · rw [h]; exact h2
+      · exact h1 c h
+  | cons c rest ih =>
+    intro acc cur soFar limit hcw hacc hrest hdesc hsorted hle
+    have hc_w : 0 < c.weight := hrest c (by simp)
+    have hrest' : ∀ x ∈ rest, 0 < x.weight := fun x hx => hrest x (List.mem_cons_of_mem _ hx)
+    rw [List.pairwise_cons] at hsorted hdesc
+    have hcur_c : cur.mean ≤ c.mean := hle c (by simp)
+    simp only [mergeLoop]
+    split
+    · -- fold `c` into the current centroid
+      have hm1 : cur.mean ≤ (centroidAdd cur c).mean := aux_cadd_lo cur c hcw hc_w _ (le_refl _) hcur_c
+      have hm2 : (centroidAdd cur c).mean ≤ c.mean := aux_cadd_hi cur c hcw hc_w _ hcur_c (le_refl _)
+      have hw' : 0 < (centroidAdd cur c).weight := by rw [aux_cadd_weight cur c hcw hc_w]; linarith
+      have := ih acc (centroidAdd cur c) (QOps.add soFar c.weight) limit hw' hacc hrest'
+        (by rw [List.pairwise_cons]; exact ⟨fun a ha => le_trans (hdesc.1 a ha) hm1, hdesc.2⟩)
+        hsorted.2 (fun r hr => le_trans hm2 (hsorted.1 r hr))
+      refine ⟨this.sorted, this.wpos, ?_, this.ne, ?_, ?_⟩
+      · rw [this.sum, aux_cadd_weight cur c hcw hc_w, aux_sumW_cons]; ring
+      · intro lo h1 h2 h3
+        exact this.lo lo h1 (aux_cadd_lo cur c hcw hc_w lo h2 (h3 c (by simp))) (fun x hx => h3 x (List.mem_cons_of_mem _ hx))
+      · intro hi h1 h2 h3
+        exact this.hi hi h1 (aux_cadd_hi cur c hcw hc_w hi h2 (h3 c (by simp))) (fun x hx => h3 x (List.mem_cons_of_mem _ hx))
+    · -- start a new centroid with `c`
+      have := ih (cur :: acc) c (QOps.add soFar c.weight) (next soFar W) hc_w
+        (by intro x hx; rw [List.mem_cons] at hx; rcases hx with h | h; (rw [h]; exact hcw); exact hacc x h)
+        hrest'
+        (by rw [List.pairwise_cons]
+            refine ⟨?_, by rw [List.pairwise_cons]; exact hdesc⟩
+            intro a ha
+            rw [List.mem_cons] at ha
+            rcases ha with h | h
+            · rw [h]; exact hcur_c
+            · exact le_trans (hdesc.1 a h) hcur_c)
+        hsorted.2 hsorted.1
+      refine ⟨this.sorted, this.wpos, ?_, this.ne, ?_, ?_⟩
+      · rw [this.sum, aux_sumW_cons, aux_sumW_cons]; ring
+      · intro lo h1 h2 h3
+        refine this.lo lo ?_ (h3 c (by simp)) (fun x hx => h3 x (List.mem_cons_of_mem _ hx))
+        intro x hx; rw [List.mem_cons] at hx
+        rcases hx with h | h
+        · rw [h]; exact h2
+        · exact h1 x h
+      · intro hi h1 h2 h3
+        refine this.hi hi ?_ (h3 c (by simp)) (fun x hx => h3 x (List.mem_cons_of_mem _ hx))
+        intro x hx; rw [List.mem_cons] at hx
+        rcases hx with h | h
+        · rw [h]; exact h2
+        · exact h1 x h
+
+/-- what is assumed of `sort.Sort(&t.unprocessed)`: it returns its input, permuted, sorted by mean -/
+structure SortSpec (sortBy : List (Centroid K) → List (Centroid K)) : Prop where
+  perm : ∀ l, (sortBy l).Perm l
+  sorted : ∀ l, (sortBy l).Pairwise (fun a b => a.mean ≤ b.mean)
+
+def LB (lo : K) (xs : List K) : Prop := ∀ x ∈ xs, lo ≤ x
+def UB (hi : K) (xs : List K) : Prop := ∀ x ∈ xs, x ≤ hi
+
+/-- The invariant of the digest after the samples `xs` were added (weight 1 each), for sentinels
+`hiS = math.MaxFloat64`, `loS = -math.MaxFloat64`. -/
+structure DigestInv (hiS loS : K) (xs : List K) (s : TD K) : Prop where
+  sorted : s.processed.Pairwise (fun a b => a.mean ≤ b.mean)
+  wposP : ∀ c ∈ s.processed, 0 < c.weight
+  wposU : ∀ c ∈ s.unprocessed, 0 < c.weight
+  pw : s.processedWeight = sumW s.processed
+  uw : s.unprocessedWeight = sumW s.unprocessed
+  count : sumW s.processed + sumW s.unprocessed = (xs.length : K)
+  hullLo : ∀ lo, LB lo xs → ∀ c ∈ s.unprocessed ++ s.processed, lo ≤ c.mean
+  hullHi : ∀ hi, UB hi xs → ∀ c ∈ s.unprocessed ++ s.processed, c.mean ≤ hi
+  minLe : ∀ c ∈ s.processed, s.min ≤ c.mean
+  maxGe : ∀ c ∈ s.processed, c.mean ≤ s.max
+  minLo : ∀ lo, LB lo xs → lo ≤ hiS → lo ≤ s.min
+  maxHi : ∀ hi, UB hi xs → loS ≤ hi → s.max ≤ hi
+
+theorem aux_inv_init (maxP maxU : Nat) (hiS loS : K) : DigestInv hiS loS [] (TD.init maxP maxU hiS loS) where
+  sorted := by simp [TD.init]
+  wposP := by simp [TD.init]
+  wposU := by simp [TD.init]
+  pw := by simp [TD.init, sumW]
+  uw := by simp [TD.init, sumW]
+  count := by simp [TD.init, sumW]
+  hullLo := by simp [TD.init]
+  hullHi := by simp [TD.init]
+  minLe := by simp [TD.init]
+  maxGe := by simp [TD.init]
+  minLo := by intro lo _ h; simpa [TD.init] using h
+  maxHi := by intro hi _ h; simpa [TD.init] using h
+
+theorem aux_head_le (l : List (Centroid K)) (hs : l.Pairwise (fun a b => a.mean ≤ b.mean)) (h : Centroid K)
+    (hh : l.head? = some h) : ∀ c ∈ l, h.mean ≤ c.mean := by
+  intro c hc
+  obtain ⟨i, hi⟩ := List.mem_iff_getElem?.mp hc
+  rw [List.head?_eq_getElem?] at hh
+  exact aux_sorted_get l hs 0 i h c hh hi (by omega)
+
+theorem aux_le_last (l : List (Centroid K)) (hs : l.Pairwise (fun a b => a.mean ≤ b.mean)) (z : Centroid K)
+    (hz : l.getLast? = some z) : ∀ c ∈ l, c.mean ≤ z.mean := by
+  intro c hc
+  obtain ⟨i, hi⟩ := List.mem_iff_getElem?.mp hc
+  rw [List.getLast?_eq_getElem?] at hz
+  have hil : i < l.length := by
+    rcases Nat.lt_or_ge i l.length with h | h
+    · exact h
+    · rw [List.getElem?_eq_none h] at hi; cases hi
+  exact aux_sorted_get l hs i (l.length - 1) c z hi hz (by omega)
+
+/-- **`process` preserves the invariant** — for every limit function and every sort that sorts — and
+empties the unprocessed buffer; when there is nothing to do it leaves the state alone. -/
+theorem process_preserves_invariant (lim : Lim K) (sortBy : List (Centroid K) → List (Centroid K)) (hsort : SortSpec sortBy)
+    (hiS loS : K) (xs : List K) (s : TD K) (hinv : DigestInv hiS loS xs s) :
+    ∃ s', process lim sortBy s = .ok s' ∧ DigestInv hiS loS xs s' ∧ s'.unprocessed = [] ∧
+      s'.maxProcessed = s.maxProcessed ∧ s'.maxUnprocessed = s.maxUnprocessed ∧
+      (needsProcess s = false → s' = s) := by
+  unfold process
+  by_cases hnp : needsProcess s = true
+  · simp only [hnp, ↓reduceIte]
+    have hperm := hsort.perm (s.unprocessed ++ s.processed)
+    have hsd := hsort.sorted (s.unprocessed ++ s.processed)
+    have hall_w : ∀ c ∈ sortBy (s.unprocessed ++ s.processed), 0 < c.weight := by
+      intro c hc
+      have := (hperm.mem_iff).mp hc
+      rw [List.mem_append] at this
+      rcases this with h | h
+      · exact hinv.wposU c h
+      · exact hinv.wposP c h
+    cases hall : sortBy (s.unprocessed ++ s.processed) with
+    | nil =>
+      exfalso
+      rw [hall] at hperm
+      have hl := hperm.length_eq
+      simp only [List.length_nil, List.length_append] at hl
+      unfold needsProcess at hnp
+      simp only [Bool.or_eq_true, decide_eq_true_eq] at hnp
+      omega
+    | cons c0 rest =>
+      rw [hall] at hsd hall_w hperm
+      rw [List.pairwise_cons] at hsd
+      simp only
+      have hm := aux_merge lim.next (QOps.add s.processedWeight s.unprocessedWeight) rest [] c0 c0.weight
+        (lim.init (QOps.add s.processedWeight s.unprocessedWeight)) (hall_w c0 (by simp)) (by simp)
+        (fun c hc => hall_w c (List.mem_cons_of_mem _ hc)) (by simp) hsd.2 hsd.1
+      generalize mergeLoop lim.next (QOps.add s.processedWeight s.unprocessedWeight) [] c0 c0.weight
+        (lim.init (QOps.add s.processedWeight s.unprocessedWeight)) rest = out at hm
+      obtain ⟨h, hh⟩ : ∃ h, out.head? = some h := by
+        cases out with
+        | nil => exact absurd rfl hm.ne
+        | cons a b => exact ⟨a, rfl⟩
+      obtain ⟨z, hz⟩ : ∃ z, out.getLast? = some z := by
+        cases hl : out.getLast? with
+        | none => rw [List.getLast?_eq_none_iff] at hl; exact absurd hl hm.ne
+        | some z => exact ⟨z, rfl⟩
+      rw [hh, hz]
+      simp only
+      have hsum : sumW out = sumW s.unprocessed + sumW s.processed := by
+        rw [hm.sum, ← aux_sumW_append, ← aux_sumW_perm hperm, aux_sumW_cons]; simp [sumW]
+      have hmem_out_lo : ∀ lo, LB lo xs → ∀ c ∈ out, lo ≤ c.mean := by
+        intro lo hlo
+        have hin := hinv.hullLo lo hlo
+        have hin' : ∀ c ∈ c0 :: rest, lo ≤ c.mean := fun c hc => hin c ((hperm.mem_iff).mp hc)
+        exact hm.lo lo (by simp) (hin' c0 (by simp)) (fun c hc => hin' c (List.mem_cons_of_mem _ hc))
+      have hmem_out_hi : ∀ hi, UB hi xs → ∀ c ∈ out, c.mean ≤ hi := by
+        intro hi hhi
+        have hin := hinv.hullHi hi hhi
+        have hin' : ∀ c ∈ c0 :: rest, c.mean ≤ hi := fun c hc => hin c ((hperm.mem_iff).mp hc)
+        exact hm.hi hi (by simp) (hin' c0 (by simp)) (fun c hc => hin' c (List.mem_cons_of_mem _ hc))
+      have hh_mem : h ∈ out := List.mem_of_head? hh
+      have hz_mem : z ∈ out := List.mem_of_getLast? hz
+      refine ⟨_, rfl, ?_, rfl, rfl, rfl, ?_⟩
+      · refine ⟨hm.sorted, hm.wpos, by simp, ?_, by simp [sumW], ?_, ?_, ?_, ?_, ?_, ?_, ?_⟩
+        · simp only [aux_ops_add]; rw [hsum, hinv.pw, hinv.uw]; ring
+        · simp only; rw [hsum]; simp only [sumW, List.map_nil, List.sum_nil, add_zero]
+          have := hinv.count; simp only [sumW] at this; linarith
+        · intro lo hlo c hc; simp only [List.nil_append] at hc; exact hmem_out_lo lo hlo c hc
+        · intro hi hhi c hc; simp only [List.nil_append] at hc; exact hmem_out_hi hi hhi c hc
+        · intro c hc
+          simp only [aux_ops_fmin]
+          exact le_trans (min_le_right _ _) (aux_head_le out hm.sorted h hh c hc)
+        · intro c hc
+          simp only [aux_ops_fmax]
+          exact le_trans (aux_le_last out hm.sorted z hz c hc) (le_max_right _ _)
+        · intro lo hlo hle
+          simp only [aux_ops_fmin]
+          exact le_min (hinv.minLo lo hlo hle) (hmem_out_lo lo hlo h hh_mem)
+        · intro hi hhi hle
+          simp only [aux_ops_fmax]
+          exact max_le (hinv.maxHi hi hhi hle) (hmem_out_hi hi hhi z hz_mem)
+      · intro hf; cases hf
+  · simp only [Bool.not_eq_true] at hnp
+    simp only [hnp, Bool.false_eq_true, ↓reduceIte]
+    refine ⟨s, rfl, hinv, ?_, rfl, rfl, fun _ => rfl⟩
+    unfold needsProcess at hnp
+    simp only [Bool.or_eq_false_iff, decide_eq_false_iff_not] at hnp
+    exact List.eq_nil_of_length_eq_zero (by omega)
+
+theorem aux_LB_append {lo : K} {xs : List K} {x : K} (h : LB lo (xs ++ [x])) : LB lo xs ∧ lo ≤ x :=
+  ⟨fun y hy => h y (List.mem_append_left _ hy), h x (by simp)⟩
+theorem aux_UB_append {hi : K} {xs : List K} {x : K} (h : UB hi (xs ++ [x])) : UB hi xs ∧ x ≤ hi :=
+  ⟨fun y hy => h y (List.mem_append_left _ hy), h x (by simp)⟩
+
+/-- **`Add(x, 1)` preserves the invariant** (and appends `x` to the samples seen). -/
+theorem add_preserves_invariant (lim : Lim K) (sortBy : List (Centroid K) → List (Centroid K)) (hsort : SortSpec sortBy)
+    (hiS loS : K) (xs : List K) (s : TD K) (hinv : DigestInv hiS loS xs s) (x : K) :
+    ∃ s', add lim sortBy s x (QOps.ofNat 1) = .ok s' ∧ DigestInv hiS loS (xs ++ [x]) s' ∧
+      s'.maxProcessed = s.maxProcessed ∧ s'.maxUnprocessed = s.maxUnprocessed := by
+  have hinv1 : DigestInv hiS loS (xs ++ [x])
+      { s with unprocessed := s.unprocessed ++ [⟨x, QOps.ofNat 1⟩], unprocessedWeight := QOps.add s.unprocessedWeight (QOps.ofNat 1) } := by
+    refine ⟨hinv.sorted, hinv.wposP, ?_, hinv.pw, ?_, ?_, ?_, ?_, hinv.minLe, hinv.maxGe, ?_, ?_⟩
+    · intro c hc
+      simp only [List.mem_append, List.mem_singleton] at hc
+      rcases hc with h | h
+      · exact hinv.wposU c h
+      · rw [h]; simp
+    · simp only [aux_ops_add, aux_ops_ofNat, aux_sumW_append, hinv.uw]; simp [sumW]
+    · simp only [aux_sumW_append]
+      have := hinv.count
+      simp only [sumW, List.map_cons, List.map_nil, List.sum_cons, List.sum_nil, aux_ops_ofNat, List.length_append,
+        List.length_singleton] at this ⊢
+      push_cast; linarith
+    · intro lo hlo c hc
+      obtain ⟨h1, h2⟩ := aux_LB_append hlo
+      simp only [List.mem_append, List.mem_singleton] at hc
+      rcases hc with (h | h) | h
+      · exact hinv.hullLo lo h1 c (List.mem_append_left _ h)
+      · rw [h]; exact h2
+      · exact hinv.hullLo lo h1 c (List.mem_append_right _ h)
+    · intro hi hhi c hc
+      obtain ⟨h1, h2⟩ := aux_UB_append hhi
+      simp only [List.mem_append, List.mem_singleton] at hc
+      rcases hc with (h | h) | h
+      · exact hinv.hullHi hi h1 c (List.mem_append_left _ h)
+      · rw [h]; exact h2
+      · exact hinv.hullHi hi h1 c (List.mem_append_right _ h)
+    · intro lo hlo hle; exact hinv.minLo lo (aux_LB_append hlo).1 hle
+    · intro hi hhi hle; exact hinv.maxHi hi (aux_UB_append hhi).1 hle
+  unfold add
+  have hnan : (!QOps.le x x) = false := by simp
+  simp only [hnan, Bool.false_eq_true, ↓reduceIte]
+  split
+  · obtain ⟨s', h1, h2, _, h4, h5, _⟩ := process_preserves_invariant lim sortBy hsort hiS loS _ _ hinv1
+    exact ⟨s', h1, h2, h4, h5⟩
+  · exact ⟨_, rfl, hinv1, rfl, rfl⟩
+
+theorem aux_addAll (lim : Lim K) (sortBy : List (Centroid K) → List (Centroid K)) (hsort : SortSpec sortBy)
+    (hiS loS : K) (ys : List K) : ∀ (xs : List K) (s : TD K), DigestInv hiS loS xs s →
+    ∃ s', addAll lim sortBy s ys = .ok s' ∧ DigestInv hiS loS (xs ++ ys) s' ∧
+      s'.maxProcessed = s.maxProcessed ∧ s'.maxUnprocessed = s.maxUnprocessed := by
+  induction ys with
+  | nil => intro xs s h; exact ⟨s, rfl, by simpa using h, rfl, rfl⟩
+  | cons y ys ih =>
+    intro xs s h
+    obtain ⟨s1, e1, i1, a1, b1⟩ := add_preserves_invariant lim sortBy hsort hiS loS xs s h y
+    obtain ⟨s2, e2, i2, a2, b2⟩ := ih (xs ++ [y]) s1 i1
+    refine ⟨s2, ?_, by simpa using i2, by rw [a2, a1], by rw [b2, b1]⟩
+    simp only [addAll, e1, e2]
+
+/-- the invariant with an empty unprocessed buffer gives `Valid` (the hypothesis of the `Quantile`
+theorems) as soon as one sample was added -/
+theorem aux_inv_valid (hiS loS : K) (xs : List K) (s : TD K) (hinv : DigestInv hiS loS xs s)
+    (hu : s.unprocessed = []) (hne : xs ≠ []) : Valid s.digest where
+  nonempty := by
+    intro hp
+    have hc := hinv.count
+    simp only [TD.digest] at hp
+    rw [hp, hu] at hc
+    simp only [sumW, List.map_nil, List.sum_nil, add_zero] at hc
+    have : (0:K) < (xs.length : K) := by
+      have : 0 < xs.length := List.length_pos_iff.mpr hne
+      exact_mod_cast this
+    linarith
+  sorted := hinv.sorted
+  wpos := hinv.wposP
+  total := by simp only [TD.digest]; exact hinv.pw
+  lo := hinv.minLe
+  hi := hinv.maxGe
+
+/-- one `Quantile` call on the live digest: the leading `process()` keeps the invariant, the value
+lies within every interval that contains the samples -/
+theorem aux_quantileTD (lim : Lim K) (sortBy : List (Centroid K) → List (Centroid K)) (hsort : SortSpec sortBy)
+    (hiS loS : K) (xs : List K) (hne : xs ≠ []) (hsent : ∀ x ∈ xs, loS ≤ x ∧ x ≤ hiS)
+    (s : TD K) (hinv : DigestInv hiS loS xs s) (q : K) (h0 : 0 ≤ q) (h1 : q ≤ 1) :
+    ∃ s' r, quantileTD lim sortBy s q = .ok (s', r) ∧ process lim sortBy s = .ok s' ∧ quantile s'.digest q = .ok r ∧
+      DigestInv hiS loS xs s' ∧ s'.unprocessed = [] ∧ Valid s'.digest ∧
+      (∀ a, LB a xs → a ≤ r) ∧ (∀ b, UB b xs → r ≤ b) := by
+  obtain ⟨s', hp, hinv', hu, _, _, _⟩ := process_preserves_invariant lim sortBy hsort hiS loS xs s hinv
+  have hv := aux_inv_valid hiS loS xs s' hinv' hu hne
+  obtain ⟨r, hr, hlo, hhi⟩ := quantile_in_min_max s'.digest hv q h0 h1
+  obtain ⟨x0, hx0⟩ := List.exists_mem_of_ne_nil xs hne
+  refine ⟨s', r, ?_, hp, hr, hinv', hu, hv, ?_, ?_⟩
+  · unfold quantileTD; rw [hp]; simp only [hr]
+  · intro a ha
+    exact le_trans (hinv'.minLo a ha (le_trans (ha x0 hx0) (hsent x0 hx0).2)) hlo
+  · intro b hb
+    exact le_trans hhi (hinv'.maxHi b hb (le_trans (hsent x0 hx0).1 (hb x0 hx0)))
+
+/-- **`Valid` is a theorem** (`process_preserves_valid`): for EVERY limit function and every sort that
+sorts, after adding any non-empty sample sequence (weight 1 each, as vegeta does) through any
+interleaving of buffer fills and `process` calls that `Add` performs, and the `process()` that
+`Quantile` starts with: the processed list has sorted means, positive weights, total weight = number of
+samples = `processedWeight`, the unprocessed buffer is empty, every centroid mean and the `min`/`max`
+fields lie within every interval that contains the samples, and `min ≤ every mean ≤ max`. -/
+theorem process_preserves_valid (lim : Lim K) (sortBy : List (Centroid K) → List (Centroid K)) (hsort : SortSpec sortBy)
+    (maxP maxU : Nat) (hiS loS : K) (xs : List K) (hne : xs ≠ []) (hsent : ∀ x ∈ xs, loS ≤ x ∧ x ≤ hiS) :
+    ∃ s s', addAll lim sortBy (TD.init maxP maxU hiS loS) xs = .ok s ∧ process lim sortBy s = .ok s' ∧
+      Valid s'.digest ∧ s'.unprocessed = [] ∧
+      s'.processedWeight = (xs.length : K) ∧ sumW s'.processed = (xs.length : K) ∧
+      (∀ a, LB a xs → (∀ c ∈ s'.processed, a ≤ c.mean) ∧ a ≤ s'.min) ∧
+      (∀ b, UB b xs → (∀ c ∈ s'.processed, c.mean ≤ b) ∧ s'.max ≤ b) := by
+  obtain ⟨s, hs, hinv, _, _⟩ := aux_addAll lim sortBy hsort hiS loS xs [] _ (aux_inv_init maxP maxU hiS loS)
+  simp only [List.nil_append] at hinv
+  obtain ⟨s', hp, hinv', hu, _, _, _⟩ := process_preserves_invariant lim sortBy hsort hiS loS xs s hinv
+  have hv := aux_inv_valid hiS loS xs s' hinv' hu hne
+  obtain ⟨x0, hx0⟩ := List.exists_mem_of_ne_nil xs hne
+  have hc := hinv'.count
+  rw [hu] at hc
+  simp only [sumW, List.map_nil, List.sum_nil, add_zero] at hc
+  refine ⟨s, s', hs, hp, hv, hu, ?_, hc, ?_, ?_⟩
+  · rw [hinv'.pw]; exact hc
+  · intro a ha
+    exact ⟨fun c hc => hinv'.hullLo a ha c (List.mem_append_right _ hc),
+      hinv'.minLo a ha (le_trans (ha x0 hx0) (hsent x0 hx0).2)⟩
+  · intro b hb
+    exact ⟨fun c hc => hinv'.hullHi b hb c (List.mem_append_right _ hc),
+      hinv'.maxHi b hb (le_trans (hsent x0 hx0).1 (hb x0 hx0))⟩
+
+/-- **End to end: `min sample ≤ Quantile(q) ≤ max sample`** for the estimate computed from the samples
+themselves (`Add` each, then `Quantile`), for every limit function, every sorting sort and every
+q ∈ [0,1] — and nothing panics. -/
+theorem e2e_quantile_in_sample_range (lim : Lim K) (sortBy : List (Centroid K) → List (Centroid K)) (hsort : SortSpec sortBy)
+    (maxP maxU : Nat) (hiS loS : K) (xs : List K) (hne : xs ≠ []) (hsent : ∀ x ∈ xs, loS ≤ x ∧ x ≤ hiS)
+    (a b : K) (ha : LB a xs) (hb : UB b xs) (q : K) (h0 : 0 ≤ q) (h1 : q ≤ 1) :
+    ∃ s s' r, addAll lim sortBy (TD.init maxP maxU hiS loS) xs = .ok s ∧
+      quantileTD lim sortBy s q = .ok (s', r) ∧ a ≤ r ∧ r ≤ b := by
+  obtain ⟨s, hs, hinv, _, _⟩ := aux_addAll lim sortBy hsort hiS loS xs [] _ (aux_inv_init maxP maxU hiS loS)
+  simp only [List.nil_append] at hinv
+  obtain ⟨s', r, hq, _, _, _, _, _, hlo, hhi⟩ := aux_quantileTD lim sortBy hsort hiS loS xs hne hsent s hinv q h0 h1
+  exact ⟨s, s', r, hs, hq, hlo a ha, hhi b hb⟩
+
+theorem aux_latQuantileTD (trunc : K → Int) (htr : ∀ a b : K, a ≤ b → trunc a ≤ trunc b) (htri : ∀ i : Int, trunc (i : K) = i)
+    (lim : Lim K) (sortBy : List (Centroid K) → List (Centroid K)) (hsort : SortSpec sortBy)
+    (hiS loS : K) (xs : List K) (hne : xs ≠ []) (hsent : ∀ x ∈ xs, loS ≤ x ∧ x ≤ hiS)
+    (lo hi : Int) (hlo : LB (lo : K) xs) (hhi : UB (hi : K) xs)
+    (s : TD K) (hinv : DigestInv hiS loS xs s) (q : K) (h0 : 0 ≤ q) (h1 : q ≤ 1) :
+    ∃ s' r, latQuantileTD trunc lim sortBy s q = .ok (s', trunc r) ∧ process lim sortBy s = .ok s' ∧
+      quantile s'.digest q = .ok r ∧ DigestInv hiS loS xs s' ∧ s'.unprocessed = [] ∧ Valid s'.digest ∧
+      lo ≤ trunc r ∧ trunc r ≤ hi := by
+  obtain ⟨s', r, hq, hp, hr, hinv', hu, hv, ha, hb⟩ := aux_quantileTD lim sortBy hsort hiS loS xs hne hsent s hinv q h0 h1
+  refine ⟨s', r, ?_, hp, hr, hinv', hu, hv, ?_, ?_⟩
+  · unfold latQuantileTD; rw [hq]
+  · rw [← htri lo]; exact htr _ _ (ha _ hlo)
+  · rw [← htri hi]; exact htr _ _ (hb _ hhi)
+
+/-- **End to end, unconditional: each of P50, P90, P95, P99 lies between the smallest and the largest
+latency**, for every limit function and every sorting sort: `Metrics.Add` for every latency, then the
+four `Quantile` calls of `Metrics.Close`, each with its own leading `process()`. -/
+theorem e2e_percentiles_in_range (trunc : K → Int) (htr : ∀ a b : K, a ≤ b → trunc a ≤ trunc b) (htri : ∀ i : Int, trunc (i : K) = i)
+    (lim : Lim K) (sortBy : List (Centroid K) → List (Centroid K)) (hsort : SortSpec sortBy)
+    (maxP maxU : Nat) (hiS loS : K) (lats : List Int) (hne : lats ≠ [])
+    (hsent : ∀ l ∈ lats, loS ≤ (l : K) ∧ (l : K) ≤ hiS)
+    (lo hi : Int) (hlo : ∀ l ∈ lats, lo ≤ l) (hhi : ∀ l ∈ lats, l ≤ hi) :
+    ∃ s p, runClose trunc lim sortBy (TD.init maxP maxU hiS loS) lats = .ok (s, p) ∧
+      lo ≤ p.p50 ∧ p.p50 ≤ hi ∧ lo ≤ p.p90 ∧ p.p90 ≤ hi ∧ lo ≤ p.p95 ∧ p.p95 ≤ hi ∧ lo ≤ p.p99 ∧ p.p99 ≤ hi := by
+  have hmap : lats.map (QOps.ofInt : Int → K) = lats.map (fun i : Int => (i : K)) := rfl
+  set xs : List K := lats.map (fun i : Int => (i : K)) with hxs
+  have hne' : xs ≠ [] := by simpa [hxs] using hne
+  have hsent' : ∀ x ∈ xs, loS ≤ x ∧ x ≤ hiS := by
+    intro x hx; simp only [hxs, List.mem_map] at hx; obtain ⟨l, hl, rfl⟩ := hx; exact hsent l hl
+  have hLB : LB (lo : K) xs := by
+    intro x hx; simp only [hxs, List.mem_map] at hx; obtain ⟨l, hl, rfl⟩ := hx; exact_mod_cast hlo l hl
+  have hUB : UB (hi : K) xs := by
+    intro x hx; simp only [hxs, List.mem_map] at hx; obtain ⟨l, hl, rfl⟩ := hx; exact_mod_cast hhi l hl
+  obtain ⟨s, hs, hinv, _, _⟩ := aux_addAll lim sortBy hsort hiS loS xs [] _ (aux_inv_init maxP maxU hiS loS)
+  simp only [List.nil_append] at hinv
+  have r50 := aux_lit_range (K := K) 50 100 (by omega) (by omega)
+  have r90 := aux_lit_range (K := K) 90 100 (by omega) (by omega)
+  have r95 := aux_lit_range (K := K) 95 100 (by omega) (by omega)
+  have r99 := aux_lit_range (K := K) 99 100 (by omega) (by omega)
+  obtain ⟨s1, a, e1, _, _, i1, _, _, la, ua⟩ := aux_latQuantileTD trunc htr htri lim sortBy hsort hiS loS xs hne' hsent' lo hi hLB hUB s hinv _ r50.1 r50.2
+  obtain ⟨s2, b, e2, _, _, i2, _, _, lb, ub⟩ := aux_latQuantileTD trunc htr htri lim sortBy hsort hiS loS xs hne' hsent' lo hi hLB hUB s1 i1 _ r90.1 r90.2
+  obtain ⟨s3, c, e3, _, _, i3, _, _, lc, uc⟩ := aux_latQuantileTD trunc htr htri lim sortBy hsort hiS loS xs hne' hsent' lo hi hLB hUB s2 i2 _ r95.1 r95.2
+  obtain ⟨s4, e, e4, _, _, i4, _, _, le', ue⟩ := aux_latQuantileTD trunc htr htri lim sortBy hsort hiS loS xs hne' hsent' lo hi hLB hUB s3 i3 _ r99.1 r99.2
+  refine ⟨s4, ⟨trunc a, trunc b, trunc c, trunc e⟩, ?_, la, ua, lb, ub, lc, uc, le', ue⟩
+  unfold runClose
+  rw [hmap, hs]
+  simp only [closeTD, e1, e2, e3, e4]
+
+/-- **End to end: when all latencies are equal every reported percentile equals that value** — for
+every limit function and every sorting sort, with no side condition. -/
+theorem e2e_all_equal (trunc : K → Int) (htr : ∀ a b : K, a ≤ b → trunc a ≤ trunc b) (htri : ∀ i : Int, trunc (i : K) = i)
+    (lim : Lim K) (sortBy : List (Centroid K) → List (Centroid K)) (hsort : SortSpec sortBy)
+    (maxP maxU : Nat) (hiS loS : K) (lats : List Int) (hne : lats ≠ []) (v : Int) (hall : ∀ l ∈ lats, l = v)
+    (hsent : loS ≤ (v : K) ∧ (v : K) ≤ hiS) :
+    ∃ s, runClose trunc lim sortBy (TD.init maxP maxU hiS loS) lats = .ok (s, ⟨v, v, v, v⟩) := by
+  obtain ⟨s, p, h, a1, a2, b1, b2, c1, c2, d1, d2⟩ := e2e_percentiles_in_range trunc htr htri lim sortBy hsort maxP maxU hiS loS lats hne
+    (fun l hl => by rw [hall l hl]; exact hsent) v v (fun l hl => by rw [hall l hl]) (fun l hl => by rw [hall l hl])
+  refine ⟨s, ?_⟩
+  rw [h]
+  obtain ⟨p50, p90, p95, p99⟩ := p
+  simp only at a1 a2 b1 b2 c1 c2 d1 d2
+  have : p50 = v := by omega
+  have : p90 = v := by omega
+  have : p95 = v := by omega
+  have : p99 = v := by omega
+  subst_vars; rfl
+
+theorem aux_process_idle (lim : Lim K) (sortBy : List (Centroid K) → List (Centroid K)) (s : TD K)
+    (hu : s.unprocessed = []) (hl : s.processed.length ≤ s.maxProcessed) : process lim sortBy s = .ok s := by
+  unfold process needsProcess
+  have h1 : ¬ (s.unprocessed.length > 0) := by rw [hu]; simp
+  have h2 : ¬ (s.processed.length > s.maxProcessed) := by omega
+  simp [h1, h2]
+
+/-- **End to end: `min ≤ P50 ≤ P90 ≤ P95 ≤ P99 ≤ max`** over the latencies themselves, for every limit
+function and every sorting sort, PROVIDED the first `process()` of `Close` leaves at most
+`maxProcessed` centroids (`hstable`).  Each of the four `Quantile` calls starts with `process()`, and
+`process` re-merges a list longer than `maxProcessed` even when nothing was added; only under `hstable`
+do the four percentiles come from one and the same centroid list, so that monotonicity in q applies.
+(The scale function bounds the count in the real library; the harness checks `len ≤ maxProcessed` on
+every state.  Without it `e2e_percentiles_in_range` still holds.) -/
+theorem e2e_percentiles_ordered (trunc : K → Int) (htr : ∀ a b : K, a ≤ b → trunc a ≤ trunc b) (htri : ∀ i : Int, trunc (i : K) = i)
+    (lim : Lim K) (sortBy : List (Centroid K) → List (Centroid K)) (hsort : SortSpec sortBy)
+    (maxP maxU : Nat) (hiS loS : K) (lats : List Int) (hne : lats ≠ [])
+    (hsent : ∀ l ∈ lats, loS ≤ (l : K) ∧ (l : K) ≤ hiS)
+    (lo hi : Int) (hlo : ∀ l ∈ lats, lo ≤ l) (hhi : ∀ l ∈ lats, l ≤ hi)
+    (hstable : ∀ s s1, addAll lim sortBy (TD.init maxP maxU hiS loS) (lats.map QOps.ofInt) = .ok s →
+      process lim sortBy s = .ok s1 → s1.processed.length ≤ s1.maxProcessed) :
+    ∃ s p, runClose trunc lim sortBy (TD.init maxP maxU hiS loS) lats = .ok (s, p) ∧
+      lo ≤ p.p50 ∧ p.p50 ≤ p.p90 ∧ p.p90 ≤ p.p95 ∧ p.p95 ≤ p.p99 ∧ p.p99 ≤ hi := by
+  have hmap : lats.map (QOps.ofInt : Int → K) = lats.map (fun i : Int => (i : K)) := rfl
+  set xs : List K := lats.map (fun i : Int => (i : K)) with hxs
+  have hne' : xs ≠ [] := by simpa [hxs] using hne
+  have hsent' : ∀ x ∈ xs, loS ≤ x ∧ x ≤ hiS := by
+    intro x hx; simp only [hxs, List.mem_map] at hx; obtain ⟨l, hl, rfl⟩ := hx; exact hsent l hl
+  have hLB : LB (lo : K) xs := by
+    intro x hx; simp only [hxs, List.mem_map] at hx; obtain ⟨l, hl, rfl⟩ := hx; exact_mod_cast hlo l hl
+  have hUB : UB (hi : K) xs := by
+    intro x hx; simp only [hxs, List.mem_map] at hx; obtain ⟨l, hl, rfl⟩ := hx; exact_mod_cast hhi l hl
+  obtain ⟨s, hs, hinv, _, _⟩ := aux_addAll lim sortBy hsort hiS loS xs [] _ (aux_inv_init maxP maxU hiS loS)
+  simp only [List.nil_append] at hinv
+  have r50 := aux_lit_range (K := K) 50 100 (by omega) (by omega)
+  have r90 := aux_lit_range (K := K) 90 100 (by omega) (by omega)
+  have r95 := aux_lit_range (K := K) 95 100 (by omega) (by omega)
+  have r99 := aux_lit_range (K := K) 99 100 (by omega) (by omega)
+  have l1 := aux_lit_le (K := K) 50 100 90 100 (by omega) (by omega) (by omega)
+  have l2 := aux_lit_le (K := K) 90 100 95 100 (by omega) (by omega) (by omega)
+  have l3 := aux_lit_le (K := K) 95 100 99 100 (by omega) (by omega) (by omega)
+  obtain ⟨s1, a, e1, p1, q1, i1, u1, v1, la, _⟩ := aux_latQuantileTD trunc htr htri lim sortBy hsort hiS loS xs hne' hsent' lo hi hLB hUB s hinv _ r50.1 r50.2
+  have hidle := aux_process_idle lim sortBy s1 u1 (hstable s s1 (by rw [hmap]; exact hs) p1)
+  -- the three later calls find nothing to do: same state
+  have step : ∀ q : K, 0 ≤ q → q ≤ 1 → ∃ r, latQuantileTD trunc lim sortBy s1 q = .ok (s1, trunc r) ∧ quantile s1.digest q = .ok r := by
+    intro q h0 h1
+    obtain ⟨r, hr, _, _⟩ := quantile_in_min_max s1.digest v1 q h0 h1
+    refine ⟨r, ?_, hr⟩
+    unfold latQuantileTD quantileTD
+    rw [hidle]; simp only [hr]
+  obtain ⟨b, e2, q2⟩ := step _ r90.1 r90.2
+  obtain ⟨c, e3, q3⟩ := step _ r95.1 r95.2
+  obtain ⟨e, e4, q4⟩ := step _ r99.1 r99.2
+  have mono : ∀ (qa qb x y : K), 0 ≤ qa → qa ≤ qb → qb ≤ 1 → quantile s1.digest qa = .ok x → quantile s1.digest qb = .ok y → x ≤ y := by
+    intro qa qb x y h0 h12 h1 hx hy
+    obtain ⟨x', y', hx', hy', hxy⟩ := quantile_monotone_in_q s1.digest v1 qa qb h0 h12 h1
+    rw [hx] at hx'; cases hx'
+    rw [hy] at hy'; cases hy'
+    exact hxy
+  obtain ⟨e', he', _, hemax⟩ := quantile_in_min_max s1.digest v1 _ r99.1 r99.2
+  rw [q4] at he'; cases he'
+  obtain ⟨x0, hx0⟩ := List.exists_mem_of_ne_nil xs hne'
+  have hmaxhi : s1.max ≤ (hi : K) := i1.maxHi _ hUB (le_trans (hsent' x0 hx0).1 (hUB x0 hx0))
+  refine ⟨s1, ⟨trunc a, trunc b, trunc c, trunc e⟩, ?_, la,
+    htr _ _ (mono _ _ a b r50.1 l1 r90.2 q1 q2), htr _ _ (mono _ _ b c r90.1 l2 r95.2 q2 q3),
+    htr _ _ (mono _ _ c e r95.1 l3 r99.2 q3 q4), ?_⟩
+  · unfold runClose
+    rw [hmap, hs]
+    simp only [closeTD, e1, e2, e3, e4]
+  · rw [← htri hi]; exact htr _ _ (le_trans hemax hmaxhi)
+
+/-- `SortSpec` is satisfiable: merge sort by mean (any sort that sorts will do; Go's is pdqsort) -/
+theorem sortSpec_mergeSort : SortSpec (fun l : List (Centroid K) => l.mergeSort (fun a b => decide (a.mean ≤ b.mean))) where
+  perm l := List.mergeSort_perm l _
+  sorted l := by
+    have := List.pairwise_mergeSort (le := fun (a b : Centroid K) => decide (a.mean ≤ b.mean))
+      (fun a b c hab hbc => by simp only [decide_eq_true_eq] at *; exact le_trans hab hbc)
+      (fun a b => by simp only [Bool.or_eq_true, decide_eq_true_eq]; exact le_total _ _) l
+    exact this.imp (by intro a b h; simpa using h)
+
+/-- the compression pass runs (SoftF64): samples 3, 1, 2, 5 into a digest whose unprocessed buffer
+holds 3; the fourth `Add` runs `process` (permutation of the sort: 1 2 0 3; limits 2, then 100):
+centroids (1.5, w 2) and (4, w 2) — and `min` = 1.5, `max` = 4 are centroid MEANS, strictly inside the
+sample range [1, 5] -/
+example :
+    (match addAll (F := F64) ⟨fun _ => F64.ofNat 2, fun _ _ => F64.ofNat 100⟩ (applyPerm [1, 2, 0, 3])
+        (TD.init 2 3 (F64.ofNat 1000) (F64.ofInt (-1000))) [F64.ofNat 3, F64.ofNat 1, F64.ofNat 2, F64.ofNat 5] with
+      | .ok s => (s.processed.map (fun c => (c.mean.bits, c.weight.bits)), s.unprocessed.length, s.min.bits, s.max.bits)
+      | _ => ([], 0, 0, 0))
+    = ([((lit 3 2 : F64).bits, (F64.ofNat 2).bits), ((F64.ofNat 4).bits, (F64.ofNat 2).bits)], 0,
+       (lit 3 2 : F64).bits, (F64.ofNat 4).bits) := by decide +kernel
+
+/-- the hypotheses of the end-to-end theorems are satisfiable over ℚ: a sorting sort exists
+(`sortSpec_mergeSort`), any limit function will do, e.g. the constant 2 -/
+example : ∃ (lim : Lim ℚ) (sortBy : List (Centroid ℚ) → List (Centroid ℚ)), SortSpec sortBy ∧ lim.init 7 = 2 :=
+  ⟨⟨fun _ => 2, fun _ _ => 2⟩, _, sortSpec_mergeSort, rfl⟩
 
 end Vegeta.Props.C11
